@@ -94,6 +94,11 @@ class C16(Prop):
                 chain = builtin_chain(std)
                 if std == "roblox":
                     continue  # needs the generated Roblox library (network); roblox_base is covered by the proof
+                if i >= 5 and rnd.randint(0, 3) == 0:
+                    vs = rnd.choice([[], [rnd.choice(VNAMES)], [rnd.choice(VNAMES), rnd.choice(VNAMES)]])
+                    open(os.path.join(pd, std + ".yml"), "w").write("---\n" + yaml.safe_dump(dict({"globals": {}}, **({"lua_versions": vs} if vs else {}))))
+                    chain = [vs]
+                    mode = "builtin-shadowed"
             else:
                 def mkchain(prefix):
                     names = [prefix + str(j) for j in range(rnd.randint(1, 3))]
@@ -118,7 +123,17 @@ class C16(Prop):
                             doc["base"] = base
                         open(os.path.join(pd, nm + ".yml"), "w").write("---\n" + yaml.safe_dump(doc))
                         ch.append(vs)
-                    if tail:
+                    if tail and rnd.randint(0, 1) == 0 and not os.path.exists(os.path.join(pd, tail + ".yml")):
+                        # a project file named like a built-in library: names resolve to the project's file first, for bases too
+                        vs = rnd.choice([[], [rnd.choice(VNAMES)], [rnd.choice(VNAMES), rnd.choice(VNAMES)]])
+                        doc = {"globals": {"print": {"args": [{"type": "..."}]}}}
+                        if vs:
+                            doc["lua_versions"] = vs
+                        open(os.path.join(pd, tail + ".yml"), "w").write("---\n" + yaml.safe_dump(doc))
+                        ch.append(vs)
+                    elif tail and os.path.exists(os.path.join(pd, tail + ".yml")):
+                        ch.append(list(yaml.safe_load(open(os.path.join(pd, tail + ".yml"))).get("lua_versions") or []))
+                    elif tail:
                         ch += builtin_chain(tail)
                     return names[0], ch
                 if mode == "chain":
